@@ -3,12 +3,13 @@ CONSTANTS
   InstOf <- Ident
   W = 8
   Widths = {0, 1, 2, 3, 4, 5, 6, 7}
-  NThreads = {2, 3}
+  NThreads = {2}
   Menu = {"near"}
   AllValues = FALSE
   Rots = {0, 1}
-  PatSet = {"ones", "alt"}
-  NearFields = 5
+  PatSet = {"zeros", "ones", "alt"}
+  Boundaries = {1}
+  NearFields = 6
   EFN = {}
   EFMaxThreads = 3
   MaxT = 3
